@@ -10,6 +10,8 @@ let run_consts _ =
     (string_of_z cLOCK_GRANULARITY) (string_of_z rTTE_INITIAL_RTT)
   ^ Printf.sprintf " IPV4_HEADER=%s IPV6_HEADER=%s UDP_HEADER=%s UTP_HEADER=%s"
     (string_of_z iPV4_HEADER) (string_of_z iPV6_HEADER) (string_of_z uDP_HEADER) (string_of_z uTP_HEADER)
+  ^ Printf.sprintf " ACK_DELAY=%s IMMEDIATE_ACK_EVERY_RMSS=%s"
+    (string_of_z aCK_DELAY) (string_of_z iMMEDIATE_ACK_EVERY_RMSS)
 
 
 let dispatchers : (string list -> string option) list = [
